@@ -1,5 +1,6 @@
 import TxVerif.Props.C15
 import TxVerif.Tie.Skeleton
+import TxVerif.Tie.Fixes
 open TxVerif
 #print axioms finished_tx_rejects
 #print axioms close_idempotent
@@ -15,3 +16,4 @@ open TxVerif
 #print axioms Tie.guards_present
 #print axioms Tie.close_keeps_file
 #print axioms Tie.pq_guards_present
+#print axioms Tie.pq_fix_initACK
